@@ -9,7 +9,10 @@ package corr
 //	         observable per build: `report ts=<ntp32> n=<blocks> len=<len(Marshal())>` and, sorted by SSRC,
 //	         `b ssrc=A begin=B cnt=N m=<1.ecn.ato | 0, ...>`
 //	ccfbint  rfc8888.SenderInterceptor inside a testing/synctest bubble (real ticker, real time.Now)
-//	         ops: cfg interval=<ms> [skew=<ms>] | writer | bind ssrc=A | rtp ssrc=A seq=Q | adv ms=D | close
+//	         ops: cfg interval=<ms> [skew=<ms>] | writer | bind ssrc=A | rtp ssrc=A seq=Q | adv ms=D | close | step ns=<+-n>
+//	         step: only with a configured clock (cfg … skew=): the clock given with SenderNow is a wall clock and is
+//	         stepped by n ns from now on while the ticker (monotonic) keeps its pace; arrival times and report
+//	         instants are the stepped clock's (model: clock and next tick instant move by n).
 //	         skew: the clock configured with rfc8888.SenderNow runs `skew` ms ahead of (negative: behind) the
 //	         bubble's clock, which drives the default ticker (and is the value its channel delivers): arrival
 //	         times and the report time must both be the configured clock's; the model's clock starts at
@@ -25,6 +28,7 @@ import (
 	"fmt"
 	"sort"
 	"strings"
+	"sync/atomic"
 	"testing"
 	"testing/synctest"
 	"time"
@@ -633,14 +637,55 @@ var c08IntClasses = []string{
 // c08GenInt: the classes of c08GenIntPlain, a third of them with wire shapes on the RTP packets, and the class
 // `padding`: packet-carrying classes, always shaped.
 func c08GenInt(r *Rng, tier string, idx int) Case {
-	n := len(c08IntClasses) + 1
+	n := len(c08IntClasses) + 2
+	if idx%n == n-2 {
+		// class `clockstep` — "the report timestamp / arrival-time offsets are what the configured clock says": the
+		// SenderNow clock is a wall clock that is stepped back (by more than a report interval, by less) or forward between
+		// packets and reports while the ticker keeps its pace.  Traffic of a packet-carrying class, steps anywhere after
+		// the configuration.
+		cs := c08GenIntPlain(r, tier, r.Pick(0, 1, 2, 3, 7, 8, 9)) // steady, loss, multi, latewriter, oldgap, dup, wrap
+		cs.Class = "clockstep"
+		var iv, sk int
+		if !scan(cs.Ops[0], "cfg interval=%d skew=%d", &iv, &sk) {
+			if !scan(cs.Ops[0], "cfg interval=%d", &iv) {
+				return cs
+			}
+			cs.Ops[0] += " skew=0"
+		}
+		ivNs := iv * 1000000
+		stepOp := func() string {
+			return fmt.Sprintf("step ns=%d", r.Pick(-1, -1000, -1000000, -ivNs/2, -ivNs+1, -ivNs, -ivNs-1, -2*ivNs, -5*ivNs-7, -3600000000000,
+				-86400000000000, 1, 1000000, ivNs/3, ivNs, 3*ivNs, 3600000000000, 86400000000000))
+		}
+		out := []string{cs.Ops[0]}
+		for _, op := range cs.Ops[1:] {
+			out = append(out, op)
+			if r.Chance(1, 6) {
+				out = append(out, stepOp())
+			}
+		}
+		// two successive reports with a step between them and one packet each
+		var ssrc, seq int
+		for _, op := range cs.Ops {
+			if scan(op, "rtp ssrc=%d seq=%d", &ssrc, &seq) && out[len(out)-1] != "close" {
+				out = append(out, fmt.Sprintf("rtp ssrc=%d seq=%d", ssrc, (seq+70)&0xFFFF), fmt.Sprintf("adv ms=%d", iv), stepOp(),
+					fmt.Sprintf("rtp ssrc=%d seq=%d", ssrc, (seq+71)&0xFFFF), fmt.Sprintf("adv ms=%d", 2*iv))
+				break
+			}
+		}
+		cs.Ops = out
+		if r.Chance(1, 3) {
+			cs.Ops = append([]string{ambWith(ambOp("", "", false, false, false, false), ambShapes(r))}, cs.Ops...)
+		}
+		return cs
+	}
 	if idx%n == n-1 {
 		cs := c08GenIntPlain(r, tier, r.Pick(0, 1, 2, 7, 8, 9)) // steady, loss, multi, oldgap, dup, wrap
 		cs.Class = "padding"
 		cs.Ops = append([]string{ambWith(ambOp("", "", false, false, false, false), ambShapes(r))}, cs.Ops...)
 		return cs
 	}
-	cs := c08GenIntPlain(r, tier, idx-idx/n)
+	cs := c08GenIntPlain(r, tier, idx%n)
 	if r.Chance(1, 3) {
 		cs.Ops = append([]string{ambWith(ambOp("", "", false, false, false, false), ambShapes(r))}, cs.Ops...)
 	}
@@ -857,6 +902,8 @@ func c08RunInt(t *testing.T, ops []string, o *Out) {
 			}
 			reports = nil
 		}
+		var skewNs atomic.Int64 // configured clock minus bubble clock (cfg skew=, step ns=)
+		hasClock := false       // the case configured SenderNow
 		for _, op := range ops {
 			o.CheckKept()
 			var a, b int
@@ -865,8 +912,9 @@ func c08RunInt(t *testing.T, ops []string, o *Out) {
 			if (withSkew || len(strings.Fields(op)) == 2 && scan(op, "cfg interval=%d", &a)) && icpt == nil && a >= 1 && a <= 100000 {
 				opts := []rfc8888.Option{rfc8888.SendInterval(time.Duration(a) * time.Millisecond)}
 				if withSkew {
-					skew := time.Duration(b) * time.Millisecond
-					opts = append(opts, rfc8888.SenderNow(func() time.Time { return time.Now().Add(skew) }))
+					skewNs.Store(int64(time.Duration(b) * time.Millisecond))
+					hasClock = true
+					opts = append(opts, rfc8888.SenderNow(func() time.Time { return time.Now().Add(time.Duration(skewNs.Load())) }))
 				}
 				f, err := rfc8888.NewSenderInterceptor(opts...)
 				if err != nil {
@@ -955,6 +1003,9 @@ func c08RunInt(t *testing.T, ops []string, o *Out) {
 				}
 			case scan(op, "adv ms=%d", &a) && a >= 0 && a <= 100000000:
 				pendMs = a
+			case scan(op, "step ns=%d", &a) && len(strings.Fields(op)) == 2 && hasClock && a >= -90000000000000 && a <= 90000000000000:
+				// the configured clock is a wall clock: it is stepped by a ns (NTP correction); the ticker keeps its pace
+				skewNs.Add(int64(a))
 			case op == "close":
 				closedSeen = true
 				_ = icpt.Close()
